@@ -19,20 +19,11 @@ KEY_RETYPE = "alter_raw/type-change-recode/non-native-byte-order/unswapped-conve
 KEY_ENDTEXT = "alter_endianness/text-encoded-fragment/GD_E_UNCLEAN_DB"
 KEY_ENDARG = "alter_endianness/byte_sex-with-ARM-flag-or-0-or-both/GD_E_ARGUMENT"
 KEY_TOSIE = "recode-to-sie/more-than-one-copy-buffer/one-sample-lost-per-buffer"
-KEY_SUBENC = "alter_raw-recode/encoding-other-than-none/temporary-file-closed-with-wrong-codec/data-destroyed"
+KEY_SUBENC = "regression/alter_raw-recode/encoding-other-than-none/temporary-file-closed-with-wrong-codec/data-destroyed"
 KEY_FOFF_OOP = "alter_frameoffset/decrease/out-of-place-encoding/copies-input-instead-of-padding"
-KEY_STALESIZE = "alter_raw/type-widened/same-handle-getdata/stale-sample-size/heap-overflow"
+KEY_STALESIZE = "regression/alter_raw/type-widened/same-handle-getdata/stale-sample-size/heap-overflow"
 KEY_SAMEHANDLE = "alter_encoding/from-lzma-or-bzip2/same-handle-read/EBADF"
 GD_REN_DATA = 1
-
-
-def load_staged_known(chk):
-    p = os.path.join(vlib.VERIF, "known_findings.d", chk.pid + ".json")
-    if os.path.exists(p):
-        for f in json.load(open(p)).get("findings", []):
-            if f.get("property") == chk.pid and f.get("status", "open") == "open" and \
-                    f["key"] not in [k["key"] for k in chk.known]:
-                chk.known.append(f)
 
 
 def cls(enc):
@@ -65,7 +56,6 @@ def values(rng, t, n, textual):
 
 def main():
     chk = vlib.Check(PID)
-    load_staged_known(chk)
     rng = chk.rng
     proved = chk.prove("Properties_C13")
     chk.cov["trusted_base"] += [
@@ -222,10 +212,6 @@ def main():
         key = "%s/%s" % (c["kind"], c["note"].split()[0])
         t, sex, enc = c["t"], c["sex"], c["enc"]
         if rc != 0 or len(r) != len(c["script"]):
-            if c["kind"] in ("alter_raw-type", "alter_raw-spf") and enc != "none":
-                key = "../" + KEY_SUBENC      # the temporary file's handle is closed by the wrong codec
-            elif c["kind"] == "alter_raw-type" and TSIZE[c["ta"]] > TSIZE[t]:
-                key = "../" + KEY_STALESIZE   # getdata sizes its buffer with the old sample size
             spec_bad.setdefault(("crash/" + key).replace("crash/../", ""), []).append((c, "gdrun died rc=%d after %d of %d lines: %s" % (rc, len(r), len(c["script"]), out[-200:])))
             continue
         before = gdlib.parse_get(r[c["iop"] - 1])
@@ -254,13 +240,11 @@ def main():
                 k2 = KEY_ENDTEXT
             if c["kind"] == "alter_endianness" and not okop and opres.split()[1:] == ["-24", "0"] and "arm" not in "" and c["script"][c["iop"]].split()[2] == "1":
                 k2 = KEY_ENDARG
-            tgt_sie = (c["kind"] == "alter_encoding" and c["note"].endswith("->sie")) or (c["kind"] == "alter_endianness" and enc == "sie")
-            if tgt_sie and okop and c["n"] > max(1, 64 // TSIZE[t]) and a1 and a1[0] < c["n"] and a1[0] >= c["n"] - (c["n"] * TSIZE[t] + 63) // 64:
+            tgt_sie = (c["kind"] == "alter_encoding" and c["note"].endswith("->sie")) or \
+                (c["kind"] in ("alter_endianness", "alter_raw-type", "alter_raw-spf", "alter_frameoffset") and enc == "sie")
+            nwant = len(c["want"]) // NCOMP[c["ta"]]
+            if tgt_sie and okop and a1 and a1[1] == 0 and a1[0] < nwant and a1[0] >= nwant - (nwant * max(TSIZE[t], TSIZE[c["ta"]]) * 2 + 63) // 64 - 1:
                 k2 = KEY_TOSIE
-            if c["kind"] in ("alter_raw-type", "alter_raw-spf") and enc != "none" and okop:
-                k2 = KEY_SUBENC
-            if c["kind"] == "alter_raw-type" and enc == "none" and TSIZE[c["ta"]] > TSIZE[t] and okop and not nonnative:
-                k2 = KEY_STALESIZE
             if c["kind"] == "alter_raw-type" and nonnative and enc != "text" and okop and model is not None and a1 and a1[2] == model:
                 k2 = KEY_RETYPE
             if c["kind"] == "alter_frameoffset" and enc in ("gzip", "bzip2", "lzma") and okop and c["script"][c["iop"]].split()[1] < str(c["off"]):
